@@ -445,7 +445,7 @@ func genC04(seed uint64, run int, tier string) *Case {
 // (values, positions, tape) still come from the seed.
 
 var c04Shapes = []func(r rng, tier string) *Case{
-	shapeCanary, shapeWhereSwitch, shapeTickBetweenNow, shapeTZLiteral, shapePatchShared, shapeStallCompile, shapeClockExact, shapeOrder, shapeTypedCallbacks, shapePatterns, shapeTypeHistory, shapeCallerChanges, shapeZoneElements, shapeBigWalk, shapeRootCollection, shapePermissiveLegacy, shapeLiteralSharing, shapeSharedCollections, shapeMixedNamespaces,
+	shapeCanary, shapeWhereSwitch, shapeTickBetweenNow, shapeTZLiteral, shapePatchShared, shapeStallCompile, shapeClockExact, shapeOrder, shapeTypedCallbacks, shapePatterns, shapeTypeHistory, shapeCallerChanges, shapeZoneElements, shapeBigWalk, shapeRootCollection, shapePermissiveLegacy, shapeLiteralSharing, shapeSharedCollections, shapeMixedNamespaces, shapeBigSets,
 }
 
 func baseShape(r rng, tier, name string, types ...string) *genCtx {
@@ -1098,6 +1098,65 @@ func shapeSharedCollections(r rng, tier string) *Case {
 	return c
 }
 
+// shapeBigSets: set-like functions on collections large enough for whatever fast path a library may
+// have for them (hashing, sorting, bucketing): the ORDER and content of intersect / exclude /
+// distinct / union / combine results is a function of the operands only.
+func shapeBigSets(r rng, tier string) *Case {
+	g := baseShape(r, tier, "big-sets", "Patient")
+	c := g.c
+	c.Knobs.SwitchThr = pick(r, []int{0, 77})
+	mk := func(kind int, n int) VarSpec {
+		vs := VarSpec{Kind: "coll"}
+		for i := 0; i < n; i++ {
+			var sv *SysVal
+			switch kind {
+			case kStr:
+				sv = &SysVal{"String", pick(r, []string{"ann", "bea", "cy", "dee", "eli", "fay", "gus", "hal", "ida", "jo", "kit", "lou", "max", "ned", "oz", "pam"}) + pick(r, []string{"", "", "", "1", "2"})}
+			case kInt:
+				sv = &SysVal{"Integer", fmt.Sprint(r.n(24))}
+			default:
+				sv = &SysVal{"Decimal", fmt.Sprintf("%d.%d", r.n(12), r.n(3))}
+			}
+			vs.Items = append(vs.Items, VarSpec{Kind: "sys", Sys: sv})
+		}
+		return vs
+	}
+	kind := pick(r, []int{kStr, kStr, kInt, kDec})
+	c.Vars = []VarSpec{mk(kind, 8+r.n(10)), mk(kind, 8+r.n(10)), mk(kind, 1+r.n(6)), mk(kind, 16+r.n(40))}
+	names := []string{"sa", "sb", "sc", "sd"}
+	forms := []string{"%%%s.intersect(%%%s)", "%%%s.exclude(%%%s)", "%%%s.union(%%%s)", "%%%s.combine(%%%s).distinct()", "%%%s.intersect(%%%s).first()", "%%%s.intersect(%%%s).last()",
+		"%%%s.subsetOf(%%%s)", "%%%s.supersetOf(%%%s)", "%%%s.where($this in %%%s)", "%%%s.intersect(%%%s).count()", "%%%s.exclude(%%%s).skip(1).first()", "%%%s.union(%%%s).tail().take(3)", "%%%s.intersect(%%%s)[1]"}
+	unary := []string{"%%%s.distinct()", "%%%s.isDistinct()", "%%%s.distinct().first()", "%%%s.distinct().last()", "%%%s.distinct().count()", "%%%s.distinct().skip(2).take(2)", "%%%s.select($this).distinct()[0]"}
+	type pu struct {
+		prog int
+		a, b int
+	}
+	var progs []pu
+	for i := 0; i < 7; i++ {
+		a, b := r.n(4), r.n(4)
+		if r.p(0.7) {
+			c.Programs = append(c.Programs, ProgSpec{Src: fmt.Sprintf(pick(r, forms), names[a], names[b])})
+		} else {
+			c.Programs = append(c.Programs, ProgSpec{Src: fmt.Sprintf(pick(r, unary), names[a])})
+			b = a
+		}
+		progs = append(progs, pu{len(c.Programs) - 1, a, b})
+	}
+	for ci := 0; ci < 1+r.n(3); ci++ {
+		var ops []Op
+		for oi := 0; oi < 5; oi++ {
+			p := pick(r, progs)
+			op := Op{Kind: pick(r, []string{"eval", "eval", "eval", "string", "evalmut"}), Prog: p.prog, Res: []int{0}, Opts: []EOpt{{Kind: "var", Name: names[p.a], Var: p.a}}}
+			if p.b != p.a {
+				op.Opts = append(op.Opts, EOpt{Kind: "var", Name: names[p.b], Var: p.b})
+			}
+			ops = append(ops, op)
+		}
+		c.Clients = append(c.Clients, ops)
+	}
+	return c
+}
+
 // shapeCanary is run 0 of every batch: a fixed, broad list of pure expressions evaluated by a
 // single client, in a fixed order. In a forward-order process it is the first thing the process
 // does (every lazily built table, memo and package-level setting is cold); in the reverse-order
@@ -1111,6 +1170,8 @@ func shapeCanary(r rng, tier string) *Case {
 		"1 / 3", "(1 / 3).toString()", "10.0 / 7", "2 / 3 * 3", "22 / 7.0", "1.0 / 3.0 = 0.3333333333333333", "(1 / 3).round(5)",
 		"7.5 div 2", "1.0 div 3", "7.5 mod 2", "(1 / 3) + (7.5 div 2)", "1 / 3", "10.0 / 7",
 		"'alpha'.matches('^[a-z]+$')", "'Beta'.replaceMatches('[aeiou]', '_')", "'a,b'.replace(',', ';')", "'abc'.substring(1)", "'abc'.indexOf('c')", "'Abc'.upper() & 'x'.lower()",
+		// (locale-sensitive letters: what upper()/lower()/matches() do must not depend on the environment of the process)
+		"'Quit'.upper() & '/' & 'EXIT'.lower()", "'iIıİ'.upper() & 'iIıİ'.lower()", "'title'.upper().matches('^[A-Z]+$')", "'ǅ ß ſ'.upper() & 'ǅ ẞ'.lower()", "'Irmak' ~ 'irmak'", "1.5.toString() & (0.1 + 0.2).toString()",
 		"(5 'mg').toString()", "(3 'mg' + 4 'mg').toString()", "5 'mg' = 5 'mg'", "(1 'kg') > (500 'g')", "1 day + 1 day", "(4 'cm' * 2).toString()",
 		"@2020-03-07T12:00:00-03:30 + 1 day", "@2020-03-07T12:00:00.123-03:30 + 1 month", "@2020-10-31T12:00:00-02:30 + 24 hours", "@2020-02-29 + 1 year", "@T10:00:00 + 90 minutes", "@2020-03-07T12:00:00+13:45.toString()",
 		"@2020-03-07 < @2020-03-08", "@2020-03-07T12:00:00Z = @2020-03-07T08:30:00-03:30", "'2020-03-07'.toDate()", "'2020-03-07T12:00:00-03:30'.toDateTime()", "'12:30'.toTime()", "'1.50'.toDecimal()", "'5 mg'.toQuantity()",
